@@ -33,8 +33,13 @@ def check_b64(api, b, pairs, wd):
     out = [l.split() for l in r.stdout.split("\n") if l.startswith("B ")]
     bad = None
     for (enc, raw), rec in zip(pairs, out):
+        if len(rec) < 3:
+            continue
         if unhex(rec[2]) != raw and bad is None:
             bad = "B %s  # decoded %s expected %s" % (enc or "-", rec[2], raw.hex() or "-")
+    mm = [l for l in r.stdout.split("\n") if l.startswith("MISMATCH")]
+    if mm and bad is None:
+        bad = "B # " + mm[0]
     if len(out) != len(pairs) or r.returncode != 0:
         bad = bad or ("B # decoder run ended early (rc=%d): %s" % (r.returncode, r.stderr[-1500:].replace("\n", " | ")))
     return len(out), bad
@@ -55,6 +60,8 @@ def run(prop, part, tier, seed, cfg, findings, api):
         p = l.split()
         if not p:
             continue
+        if (p[0] == "U" and len(p) < 6) or (p[0] == "F" and len(p) < 4):
+            continue   # a record cut short by a crash of the enumerator (reported through its exit status below)
         if p[0] == "U":
             cp = int(p[1]); n += 1
             if cp <= 0x10FFFF:
